@@ -196,7 +196,7 @@ class Module:
 
 
 class Model:
-    def __init__(self, overlay: Overlay, prefix: str = 'pyphysim/'):
+    def __init__(self, overlay: Overlay, prefix: str = 'pyphysim/', flatten: bool = True):
         self.overlay = overlay
         self.modules: Dict[str, Module] = {}
         self.by_path: Dict[str, Module] = {}
@@ -221,6 +221,11 @@ class Model:
                 c.bases.append(self._resolve_class(c.module, b))
         self._mro: Dict[str, List[ClassInfo]] = {}
         self._subs: Optional[Dict[str, List[ClassInfo]]] = None
+        # calls of helpers introduced after the reference tree are spliced into their callers (see inline.py)
+        self.flat = None
+        if prefix == 'pyphysim/' and flatten and not str(getattr(overlay, 'root', '<')).startswith('<'):
+            from .inline import flatten_model
+            self.flat = flatten_model(self)
 
     # ------------------------------------------------------------ resolution
     def _resolve_class(self, mod: Module, expr: ast.expr) -> Optional[ClassInfo]:
